@@ -390,6 +390,7 @@ static void req_done(const char* kind, int r, int status) {
 }
 static void after_work_cb(uv_work_t* req, int status) { req_done("work", ridof(req), status); }
 static void send_cb(uv_udp_send_t* req, int status) { req_done("udp_send", ridof(req), status); }
+static void write_cb(uv_write_t* req, int status) { req_done("write", ridof(req), status); }
 static void connect_cb(uv_connect_t* req, int status) { int r = ridof(req); if (R[r].handle >= 0) H[R[r].handle].conn_pending = 0; req_done("connect", r, status); }
 static void gai_cb(uv_getaddrinfo_t* req, int status, struct addrinfo* res) { (void) req; (void) status; (void) res; }
 static void gni_cb(uv_getnameinfo_t* req, int status, const char* h, const char* sv) { (void) req; (void) status; (void) h; (void) sv; }
@@ -526,6 +527,15 @@ static void exec_op(char* text0) {
     int r = uv_pipe_open((uv_pipe_t*) H[i].ptr, sv[0]);
     if (r != 0) { close(sv[0]); close(sv[1]); RET(r); }
     H[i].fd_b = sv[1]; H[i].bound = 2; keep_dup(i);
+    RET(0);
+  }
+  if (!strcmp(o, "write") && nw == 3 && nr < MAXR && live(i) && H[i].kind == K_PIPE && H[i].bound == 2 && !uv_is_closing(H[i].ptr)) {
+    /* stream write on the opened pipe; the peer never reads, so a large write stays (partly) queued */
+    static char big[4 << 20]; long n = atol(w[2]); if (n < 1 || n > (long) sizeof big) BAD;
+    uv_write_t* req = malloc(sizeof *req); uv_buf_t b = uv_buf_init(big, (unsigned) n);
+    int r = uv_write(req, (uv_stream_t*) H[i].ptr, &b, 1, write_cb);
+    if (r != 0) { free(req); RET(r); }
+    R[nr].kind = 5; R[nr].state = H_LIVE; R[nr].ptr = req; R[nr].handle = i; nr++;
     RET(0);
   }
   if (!strcmp(o, "fail") && (nw == 2 || nw == 3)) {
